@@ -11,6 +11,7 @@
   complement is proved below by `decide` on the model and replayed on the real code by the `value` corpus.
 -/
 import IocProofs.Lemmas.ValueTop
+import IocProofs.Lemmas.ValueDefault
 namespace Ioc.C17
 open Ioc Ioc.Tag Ioc.Value
 
@@ -42,6 +43,16 @@ theorem C17_prop_is_value (J : Json) (cfg : Cfg) (ty : FieldTy) (k rest : Bytes)
     bindProp J cfg ty (k ++ cComma :: rest) = bindValue J cfg ty (placeholder k ++ cComma :: rest) ∧
     ((∀ b ∈ k, b ≠ cComma) → bindProp J cfg ty k = bindValue J cfg ty (placeholder k)) :=
   prop_is_value J cfg ty k rest hk
+
+/-- A default declared in the placeholder, `${k:d}`, stands in for a key that is NOT configured and for nothing else:
+    whenever `k` is configured with a present value — any value that is not null / an empty map / an empty list, in
+    particular the zero values `0`, `false`, `0.0`, `""` — binding through `${k:d}` IS binding through `${k}`, for
+    every field type and all arguments (so C17_value_eq_prefix_partial carries over to placeholders with defaults;
+    with `C17_prop_is_value`, to `prop:"k:d"` as well). -/
+theorem C17_default_ignored (J : Json) (cfg : Cfg) (k d : Bytes) (as : List (Bytes × List Bytes)) (ty : FieldTy)
+    (hk : PlainKey k = true) (hd : PlainDefault d = true) (has : ∀ a ∈ as, WFArg a) (hp : present (cfg k) = true) :
+    bindValue J cfg ty (render (placeholderD k d) as) = bindValue J cfg ty (render (placeholder k) as) :=
+  value_default_ignored J noExpr noValidate cfg k d as ty hk hd has hp
 
 /- FULL STATEMENT (false of the code: `value:"007"` binds "7"):  ∀ s, bindValue J cfg .string s = ok (str s) -/
 /-- A literal written in a value tag is bound as written: the field receives the literal converted to its type;
@@ -115,6 +126,14 @@ example : bindValue goJson (fun k => if k = ofString "app" then
     = .ok (.struct [(ofString "name", .str (ofString "007")), (ofString "port", .int 8080)]) := by decide
 example : convertible (.struct [(ofString "name", .string), (ofString "port", .uint), (ofString "opt", .ptr .int)])
     (.map [(ofString "name", .str (ofString "007")), (ofString "port", .int 8080)]) = true := by decide
+-- a declared default does not shadow a configured zero value; it is used when the key is absent
+example : present (.int 0) = true ∧ present (.bool false) = true ∧ present (.flt 0) = true ∧ present (.str []) = true := by decide
+example : PlainDefault (ofString "0.5") = true ∧ placeholderD (ofString "k") (ofString "3") = ofString "${k:3}" := by decide
+example : bindValue goJson (cfgK (.int 0)) .int (ofString "${k:3}") = .ok (.int 0) := by decide +kernel
+example : bindValue goJson (cfgK (.bool false)) .bool (ofString "${k:true}") = .ok (.bool false) := by decide +kernel
+example : bindValue goJson (cfgK (.flt 0)) .float (ofString "${k:0.5}") = .ok (.int 0) := by decide +kernel
+example : bindProp goJson (cfgK (.int 0)) .int (ofString "k:3") = .ok (.int 0) := by decide +kernel
+example : bindValue goJson (cfgK .null) .int (ofString "${k:3}") = .ok (.int 3) := by decide +kernel
 example : PlainLiteral (ofString "hello world") = true := by decide
 example : bindValue goJson (cfgK .null) .string (ofString "hello world,required=false") = .ok (.str (ofString "hello world")) := by decide
 example : bindProp goJson (cfgK (.int 5)) .int (ofString "k,required=false") = .ok (.int 5) := by decide
